@@ -194,6 +194,11 @@ class Run:
             return
         spec = F.FORMATS[fmt]
         v = spec["view"](data)
+        if v is None and mut["kind"] in ("flip", "overwrite") and spec.get("unprotected_region") and spec["unprotected_region"](mut.get("label") or ""):
+            # the strict independent reader gives up, but every mutated byte lies in a region the format specification leaves unprotected
+            # (e.g. the records of [Content_Types].xml in an OPC package): not a change to signed content
+            self.note(fmt, "accepted_unprotected", klass)
+            return
         if mut.get("expect") != "reject":
             if v is not None and (v == art.view or v in self.genuine.get(art.fixture + "|" + fmt, ()) or (spec.get("neutral") and spec["neutral"](art.view, v))):
                 self.note(fmt, "accepted_unprotected", klass)
